@@ -317,7 +317,7 @@ def const_reach(ctx: Ctx, f: FuncInfo, env0: Dict[str, object], on_node, start: 
                     if ok:
                         new[pname] = v
                 continue
-            ok, v = lit(a, caller_view)
+            ok, v = lit(a, caller_view(a) if callable(caller_view) else caller_view)
             if ok:
                 new[pname] = v
         return new
@@ -326,7 +326,15 @@ def const_reach(ctx: Ctx, f: FuncInfo, env0: Dict[str, object], on_node, start: 
         call = strip_cast(n.ast.value if isinstance(n.ast, ast.Await) else n.ast)
         new: Dict[str, object] = {}
         if isinstance(call, ast.Call):
-            new = bind_params(call, callee, lambda pname: ctx.call_arg(call, callee, pname), view(n.env, st))
+            syn = ctx.an.partial_syn.get((id(call), id(n.env)))
+            if syn is not None:
+                # a call through a callable value: the stand-in spells out the arguments, each read in the frame that wrote it
+                def view_of(a_):
+                    fe = ctx.an.syn_arg_frame.get(id(a_))
+                    return view(fe[1] if fe is not None else n.env, st)
+                new = bind_params(syn, callee, lambda pname: Ctx.call_arg(ctx, syn, callee, pname), view_of)
+            else:
+                new = bind_params(call, callee, lambda pname: ctx.call_arg(call, callee, pname), view(n.env, st))
         return frozenset(new.items())
 
     def leave(ai, n, callee, before, after):
